@@ -776,8 +776,14 @@ where
         }
         "wnaf_raw" => {
             let p = a(0) % G::nsub();
-            let k = lt255_index(a(1));
             let w = 2 + a(2) % 21;
+            // (a(3) / 2) % 4: 2, 3 = a scalar whose recoding for THIS window uses the extreme digits
+            // (2^w - 1, 2^w + 1: the last table slot, positive and negative; 2^w - 3: the slot before)
+            let k = match (a(3) / 2) % 4 {
+                2 => crate::spool::ext_index(w, a(1) % 2),
+                3 => crate::spool::ext_index(w, 2),
+                _ => lt255_index(a(1)),
+            };
             let r: G = if a(3) % 2 == 1 {
                 verif_hooks::wnaf_table(&mut o.raw_table, G::proj(p), w);
                 verif_hooks::wnaf_form(&mut o.raw_digits, FrRepr(scalar(k)), w);
@@ -901,7 +907,13 @@ where
             let n = if a(0) < 7 { a(0) } else { BIG[(a(0) - 7) % BIG.len()] };
             let pts: Vec<G::Affine> = (0..n).map(|i| G::aff((a(1) + i) % G::nsub())).collect();
             let ks: Vec<[u64; 4]> = (0..n).map(|i| scalar(lt255_index(a(2) + 3 * i))).collect();
-            let kr: Vec<&[u64; 4]> = ks.iter().collect();
+            // a(2) % 3 == 1: the caller weights its bases with references into a small table of scalars, so
+            // the same reference appears several times - on this thread's odd-numbered calls; on even-numbered
+            // calls (the isolated evaluation is call 1) every component has its own copy of the same value
+            let m = 2 + n / 5;
+            let shared_refs = a(2) % 3 == 1 && n >= 3;
+            let ks: Vec<[u64; 4]> = if shared_refs { (0..n).map(|i| ks[i % m]).collect() } else { ks };
+            let kr: Vec<&[u64; 4]> = if shared_refs && scratch.2 % 2 == 1 { (0..n).map(|i| &ks[i % m]).collect() } else { ks.iter().collect() };
             let r = if name == "sop" { G::Affine::sum_of_products(&pts, &kr) } else { G::Affine::sum_of_products_pippinger(&pts, &kr, 1 + a(3) % 9) };
             img_proj(&r, out);
         }
@@ -1342,8 +1354,20 @@ pub fn eval<'a>(op: &Op, sh: &Shared, rs: &RunShared, tl: &mut ThreadObjs<'a>) -
         }
         "miller" => {
             let n = if rs.prep_g2.is_empty() || rs.prep_g1.is_empty() { 0 } else { a(0) % 4 };
-            let pairs: Vec<(&G1Prepared, &G2Prepared)> =
-                (0..n).map(|t| (&rs.prep_g1[(a(1) + t) % rs.prep_g1.len().max(1)], &rs.prep_g2[(a(2) + t) % rs.prep_g2.len().max(1)])).collect();
+            // (a(3) / 2) % 3: 1 = every pair uses the same prepared G2 element, 2 = the same prepared G1 element;
+            // on this thread's odd-numbered calls as the same reference, on even-numbered calls (the isolated
+            // evaluation is call 1) as equal clones - a pure function cannot tell
+            let dup = (a(3) / 2) % 3;
+            let (l1, l2) = (rs.prep_g1.len().max(1), rs.prep_g2.len().max(1));
+            let clones1: Vec<G1Prepared> = if dup == 2 && tl.align_ctr % 2 == 0 { (0..n).map(|_| rs.prep_g1[a(1) % l1].clone()).collect() } else { vec![] };
+            let clones2: Vec<G2Prepared> = if dup == 1 && tl.align_ctr % 2 == 0 { (0..n).map(|_| rs.prep_g2[a(2) % l2].clone()).collect() } else { vec![] };
+            let pairs: Vec<(&G1Prepared, &G2Prepared)> = (0..n)
+                .map(|t| {
+                    let p1 = if dup == 2 { if clones1.is_empty() { &rs.prep_g1[a(1) % l1] } else { &clones1[t] } } else { &rs.prep_g1[(a(1) + t) % l1] };
+                    let p2 = if dup == 1 { if clones2.is_empty() { &rs.prep_g2[a(2) % l2] } else { &clones2[t] } } else { &rs.prep_g2[(a(2) + t) % l2] };
+                    (p1, p2)
+                })
+                .collect();
             let f = if a(3) % 2 == 1 { Bls12::miller_loop(YIter(pairs.iter())) } else { Bls12::miller_loop(pairs.iter()) };
             f.img(&mut out);
         }
